@@ -14,6 +14,8 @@ SPELL = {
     'COUNT': ['COUNT', 'Count', 'count'], 'ARRAY_AGG': ['ARRAY_AGG', 'array_agg'], 'ANY_VALUE': ['ANY_VALUE', 'Any_value', 'any_value'],
 }
 
+BIGCELLS = ['9007199254740993', '9007199254740992', '1696118400123456789', '1696118400123456791', '-9007199254740995', '3', '18014398509481985', '1696118400123456790']
+
 
 def gen_case(ctx, g):
     r = ctx.rng
@@ -21,6 +23,11 @@ def gen_case(ctx, g):
     nnum = r.randint(1, 2)
     nrows = r.randint(0, 8)
     numcells = qgen.INTCELLS if r.random() < 0.4 else qgen.NUMCELLS
+    bigmode = r.random() < 0.12
+    if bigmode:
+        # integer strings beyond 2**53 (timestamps in ns, 64-bit ids): MIN/MAX/SUM/MEDIAN/AVG are the mathematical values, never
+        # the values after a detour through a double
+        numcells = BIGCELLS
     A = []
     for _ in range(nrows):
         row = [r.choice(['k', 'm', 'k2'][:r.randint(1, 3)]) for _ in range(ngroup)] + [r.choice(numcells) for _ in range(nnum)]
@@ -68,6 +75,10 @@ def gen_case(ctx, g):
             items.append(('expr', ('fld', 'a', r.randint(0, ngroup - 1))))
         else:
             items.append(('expr', ('lit', r.choice(['c', 7]))))
+    if bigmode and any(it[0] == 'agg' and it[1] in ('AVG', 'VARIANCE') for it in items):
+        # (AVG and VARIANCE accumulate in doubles by design - NumHandler(False) - so beyond 2**53 they are the double-arithmetic
+        #  values, not the exact ones: observation O19 in DESIGN.md; compared on exactly representable data only)
+        A = [[(qgen.INTCELLS[BIGCELLS.index(c)] if c in BIGCELLS else c) for c in row] for row in A]
     if r.random() < 0.15 and A:
         # a non-aggregate column over a field that some records lack (None): constant within a group only if ALL its records
         # agree, None included - in particular None first and a value later is NOT constant
